@@ -21,6 +21,9 @@ use crate::*;
 pub struct State<'a> {
     pub(crate) parent_clip_path: Option<SvgNode<'a, 'a>>,
     pub(crate) parent_markers: Vec<SvgNode<'a, 'a>>,
+    /// `clipPath`, `mask`, `filter` and `pattern` elements that are being converted right now.
+    /// Used to break reference cycles of any length and kind.
+    pub(crate) parent_defs: Vec<SvgNode<'a, 'a>>,
     /// Stores the resolved fill and stroke of a use node
     /// or a path element (for markers)
     pub(crate) context_element: Option<(Option<Fill>, Option<Stroke>)>,
@@ -32,6 +35,25 @@ pub struct State<'a> {
     /// Width and height can be set independently.
     pub(crate) use_size: (Option<f32>, Option<f32>),
     pub(crate) opt: &'a Options<'a>,
+}
+
+impl<'a> State<'a> {
+    /// Returns a state in which `node` is marked as being converted
+    /// or `None` when it already is, i.e. when `node` references itself,
+    /// directly or through any chain of other elements.
+    pub(crate) fn enter_def(&self, node: SvgNode<'a, 'a>) -> Option<Self> {
+        if self.parent_defs.contains(&node) {
+            log::warn!(
+                "Recursive '{}' detected. It will be skipped.",
+                node.element_id()
+            );
+            return None;
+        }
+
+        let mut state = self.clone();
+        state.parent_defs.push(node);
+        Some(state)
+    }
 }
 
 #[derive(Clone)]
@@ -323,6 +345,7 @@ pub(crate) fn convert_doc(svg_doc: &svgtree::Document, opt: &Options) -> Result<
         parent_clip_path: None,
         context_element: None,
         parent_markers: Vec::new(),
+        parent_defs: Vec::new(),
         fe_image_link: false,
         view_box: view_box.rect,
         use_size: (None, None),
@@ -429,6 +452,7 @@ fn resolve_svg_size(svg: &SvgNode, opt: &Options) -> (Result<Size, Error>, bool)
         parent_clip_path: None,
         context_element: None,
         parent_markers: Vec::new(),
+        parent_defs: Vec::new(),
         fe_image_link: false,
         view_box: NonZeroRect::from_xywh(0.0, 0.0, 100.0, 100.0).unwrap(),
         use_size: (None, None),
